@@ -162,3 +162,29 @@ def mentions(node, pred):
 
 def mentions_name(node, name):
     return mentions(node, lambda n: n.k == "DeclRefExpr" and n.j.get("name") == name)
+
+
+def is_slot_init(st):
+    """`A[i].f = 0 / NULL / false` inside a loop that counts `i`: the (re)initialisation of a run of slots - of a reserve
+    behind the used entries, of a freshly allocated array - not a statement about "the" entry a rule is looking at."""
+    from .ast import render as _r
+    if st.k != "BinaryOperator" or st.j.get("op") != "=" or len(st.children) < 2:
+        return False
+    rhs = st.children[1]
+    if not (rhs.is_null_const() or rhs.const_value() == 0):
+        return False
+    l = st.children[0].strip()
+    while l.k == "MemberExpr" and l.children:
+        l = l.children[0].strip()
+    if l.k != "ArraySubscriptExpr":
+        return False
+    idx = l.children[1].strip()
+    if idx.k != "DeclRefExpr":
+        return False
+    from . import loops as _loops
+    for a in st.ancestors():
+        if a.k in ("ForStmt", "WhileStmt"):
+            sh = _loops.index_shape(a)
+            if sh.ok and sh.var == _r(idx):
+                return True
+    return False
